@@ -38,7 +38,7 @@ ASSUMPTIONS = [
     "bound = 50 x the solver's scaled criterion reconstructed with the harness's residual at the warm start of the load step",
     "frame-indifference tolerance 1e-7*(1+scale) with Newton tolerance 1e-10",
 ]
-REQUIRED_PROBES = {"quick": ["cantilever_solved", "frame_indifference_checked", "riks_points_checked", "signorini_static_closed", "fault_fired", "rigid_static_solved"]}
+REQUIRED_PROBES = {"quick": ["static_with_initial_velocities", "cantilever_solved", "frame_indifference_checked", "riks_points_checked", "signorini_static_closed", "fault_fired", "rigid_static_solved"]}
 KINDS = ["cantilever", "cantilever", "frame", "rigid", "signorini", "riks_truss", "riks_cantilever", "cantilever_fault", "frame"]
 
 
@@ -69,6 +69,15 @@ def gen(rng, tier, index):
             plan["la_arc0"] = float(rng.choice([1e-3, 1e-2]))
     elif kind == "rigid":
         plan["scene"] = static_scene(rng)
+        if rng.random() < 0.6:
+            # the same system object often serves a dynamic run too: its bodies carry initial velocities and some
+            # force elements are velocity dependent (dampers, gyroscopic terms) - a static solution must not see them
+            b = plan["scene"]["bodies"][0]
+            b["v"], b["w"] = (rng.normal(size=3) * 2).tolist(), (rng.normal(size=3) * 3).tolist()
+            for lw in plan["scene"]["laws"]:
+                if rng.random() < 0.5:
+                    lw.update(type="kv", d=float(rng.uniform(1, 10)))
+            plan["moving_initial_state"] = True
     elif kind in ("signorini", "riks_signorini"):
         if kind == "riks_signorini":
             plan["la_arc0"] = float(rng.choice([1e-3, 1e-2]))
@@ -287,6 +296,8 @@ def execute(plan, out, log):
                 if not check_points(system, sol, opts, out, "rigid_on_springs", "rigid body on springs"):
                     return
                 out["probes"]["rigid_static_solved"] += 1
+                if plan.get("moving_initial_state"):
+                    out["probes"]["static_with_initial_velocities"] += 1
                 moved_last = float(np.max(np.abs(np.asarray(sol.q)[-1] - system.q0)))
                 out["steps"] = len(sol.t)
             elif kind == "signorini":
